@@ -1033,6 +1033,7 @@ impl Database {
         let catalog = catalog_guard.as_mut().unwrap();
 
         let mut actually_dropped = false;
+        let mut files_to_drop: Vec<(String, String)> = Vec::new();
 
         for table_ref in drop_stmt.names.iter() {
             let schema_name = table_ref.schema.unwrap_or(DEFAULT_SCHEMA);
@@ -1056,15 +1057,22 @@ impl Database {
             }
 
             if actually_dropped {
-                let mut file_manager_guard = self.shared.file_manager.write();
-                let file_manager = file_manager_guard.as_mut().unwrap();
-                let _ = file_manager.drop_table(schema_name, table_name);
+                files_to_drop.push((schema_name.to_string(), table_name.to_string()));
             }
         }
 
         drop(catalog_guard);
         if actually_dropped {
             self.save_catalog()?;
+        }
+        // the files go after the catalog is on disk: a crash in between must not leave a catalog
+        // that still lists a table whose files are gone (orphan files are harmless)
+        if !files_to_drop.is_empty() {
+            let mut file_manager_guard = self.shared.file_manager.write();
+            let file_manager = file_manager_guard.as_mut().unwrap();
+            for (schema_name, table_name) in &files_to_drop {
+                let _ = file_manager.drop_table(schema_name, table_name);
+            }
         }
 
         Ok(ExecuteResult::DropTable {
@@ -1113,6 +1121,10 @@ impl Database {
             }
         }
 
+        // the catalog first: a crash between the two steps must not leave a catalog that still
+        // lists an index whose file is gone (an orphan file is harmless)
+        self.save_catalog()?;
+
         {
             let mut file_manager_guard = self.shared.file_manager.write();
             let file_manager = file_manager_guard.as_mut().unwrap();
@@ -1121,8 +1133,6 @@ impl Database {
                 file_manager.drop_index(schema_name, table_name, index_name)?;
             }
         }
-
-        self.save_catalog()?;
 
         Ok(ExecuteResult::DropIndex { dropped: true })
     }
